@@ -109,7 +109,14 @@ pub enum TimerSpec {
     /// armed for t0 + old_ms, then re-armed before the measured dispatch through
     /// set_deadline(t0 + new_ms) + LoopHandle::update (both signed, -40..=40; <= 0: in the past):
     /// only the new deadline is armed
-    Rearmed { old_ms: i8, new_ms: i8 },
+    /// `from`: 0 = as described; 1 = the timer starts without any deadline (Timer::from_duration(Duration::MAX), old_ms
+    /// unused); 2 = armed for t0 + old_ms, pushed to "never" by set_duration(Duration::MAX) + update, then re-armed
+    Rearmed {
+        old_ms: i8,
+        new_ms: i8,
+        #[serde(default)]
+        from: u8,
+    },
     /// overdue by ago_ms (0..=40) when the measured dispatch starts; its callback returns
     /// TimeoutAction::ToDuration(period_ms) the first time (then Drop): after firing (late) it is armed for
     /// "fire time + period", which is what a follow-up dispatch has to wait for
@@ -272,7 +279,7 @@ pub fn normalise(c: &Case) -> Case {
             TimerSpec::Removed { ms } => TimerSpec::Removed { ms: ms.clamp(1, 40) },
             TimerSpec::RemovedOverdue { ago_ms } => TimerSpec::RemovedOverdue { ago_ms: ago_ms.min(40) },
             TimerSpec::Disabled { ms } => TimerSpec::Disabled { ms: ms.clamp(-40, 40) },
-            TimerSpec::Rearmed { old_ms, new_ms } => TimerSpec::Rearmed { old_ms: old_ms.clamp(-40, 40), new_ms: new_ms.clamp(-40, 40) },
+            TimerSpec::Rearmed { old_ms, new_ms, from } => TimerSpec::Rearmed { old_ms: if from == 1 { 0 } else { old_ms.clamp(-40, 40) }, new_ms: new_ms.clamp(-40, 40), from: from.min(2) },
             TimerSpec::Periodic { ago_ms, period_ms } => TimerSpec::Periodic { ago_ms: ago_ms.min(40), period_ms: period_ms.clamp(5, 40) },
             o => o,
         };
@@ -327,7 +334,7 @@ fn timer_strategy() -> impl Strategy<Value = TimerSpec> {
         2 => (1u8..=40).prop_map(|ms| TimerSpec::Removed { ms }),
         2 => (0u8..=40).prop_map(|ago_ms| TimerSpec::RemovedOverdue { ago_ms }),
         2 => (-40i8..=40).prop_map(|ms| TimerSpec::Disabled { ms }),
-        4 => (-40i8..=40, -40i8..=40).prop_map(|(old_ms, new_ms)| TimerSpec::Rearmed { old_ms, new_ms }),
+        4 => (-40i8..=40, -40i8..=40, prop_oneof![3 => Just(0u8), 1 => Just(1u8), 1 => Just(2u8)]).prop_map(|(old_ms, new_ms, from)| TimerSpec::Rearmed { old_ms, new_ms, from }),
         3 => (0u8..=40, 5u8..=40).prop_map(|(ago_ms, period_ms)| TimerSpec::Periodic { ago_ms, period_ms }),
     ];
     prop_oneof![15 => armed, 13 => history]
@@ -779,6 +786,7 @@ fn run_once(c: &Case) -> Obs {
                 Some(t0.checked_sub(Duration::from_millis(ago_ms as u64)).unwrap_or(t0))
             }
             TimerSpec::Disabled { ms } => Some(signed(ms)),
+            TimerSpec::Rearmed { from: 1, .. } => None,
             TimerSpec::Rearmed { old_ms, .. } => Some(signed(old_ms)),
             TimerSpec::Equal => Some(timeout.map_or(t0 + FAR, |t| t0 + t)),
             TimerSpec::Later { ms } => Some(timeout.map_or(t0 + FAR, |t| t0 + t + Duration::from_millis(ms as u64))),
@@ -815,9 +823,9 @@ fn run_once(c: &Case) -> Obs {
                 deadlines.push(None);
                 keep.push(Box::new(disp));
             }
-            TimerSpec::Rearmed { new_ms, .. } => {
+            TimerSpec::Rearmed { new_ms, from, .. } => {
                 let nd = signed(new_ms);
-                to_rearm.push((tok, disp, nd));
+                to_rearm.push((tok, disp, nd, from));
                 deadlines.push(Some(nd));
             }
             _ => deadlines.push(deadline),
@@ -829,7 +837,12 @@ fn run_once(c: &Case) -> Obs {
     for tok in &to_disable {
         h.disable(tok).expect("disable timer");
     }
-    for (tok, disp, nd) in to_rearm {
+    for (tok, disp, nd, from) in to_rearm {
+        if from == 2 {
+            // first pushed out of the wheel altogether: an unrepresentable deadline is no deadline
+            disp.as_source_mut().set_duration(Duration::MAX);
+            h.update(&tok).expect("update timer");
+        }
         disp.as_source_mut().set_deadline(nd);
         h.update(&tok).expect("update timer");
     }
@@ -963,7 +976,14 @@ fn judge(c: &Case, o: &Obs) -> Judgement {
             TimerSpec::Periodic { .. } => "timer:overdue_rearming_by_duration",
             TimerSpec::Disabled { ms } if ms <= 0 => "timer:disabled_overdue",
             TimerSpec::Disabled { .. } => "timer:disabled",
-            TimerSpec::Rearmed { old_ms, new_ms } => match (old_ms <= 0, new_ms <= 0) {
+            TimerSpec::Rearmed { from, new_ms, .. } if from != 0 => {
+                if new_ms <= 0 {
+                    "timer:rearmed_from_no_deadline_to_past"
+                } else {
+                    "timer:rearmed_from_no_deadline_to_future"
+                }
+            }
+            TimerSpec::Rearmed { old_ms, new_ms, .. } => match (old_ms <= 0, new_ms <= 0) {
                 (false, false) => "timer:rearmed_future_to_future",
                 (false, true) => "timer:rearmed_future_to_past",
                 (true, false) => "timer:rearmed_overdue_to_future",
@@ -1475,7 +1495,7 @@ fn cross_product(include_long_waits: bool) -> Vec<Case> {
             Tmo::Ms(7) => 3,
             _ => 9,
         };
-        let relations: [Vec<TimerSpec>; 14] = [
+        let relations: [Vec<TimerSpec>; 16] = [
             vec![],
             vec![TimerSpec::Expired { ago_ms: 2 }],
             vec![TimerSpec::At { ms: earlier_ms }],
@@ -1491,8 +1511,11 @@ fn cross_product(include_long_waits: bool) -> Vec<Case> {
             // former / re-armed timers; these four get a follow-up dispatch of 15 ms
             vec![TimerSpec::Far, TimerSpec::RemovedOverdue { ago_ms: 3 }],
             vec![TimerSpec::Far, TimerSpec::Disabled { ms: -3 }, TimerSpec::Disabled { ms: 5 }],
-            vec![TimerSpec::Far, TimerSpec::Rearmed { old_ms: 6, new_ms: -1 }],
-            vec![TimerSpec::Rearmed { old_ms: -2, new_ms: 4 }, TimerSpec::Rearmed { old_ms: 3, new_ms: 30 }],
+            vec![TimerSpec::Far, TimerSpec::Rearmed { old_ms: 6, new_ms: -1, from: 0 }],
+            vec![TimerSpec::Rearmed { old_ms: -2, new_ms: 4, from: 0 }, TimerSpec::Rearmed { old_ms: 3, new_ms: 30, from: 0 }],
+            // a timer without any deadline (created so / pushed there) that is given a near one by set_deadline + update
+            vec![TimerSpec::Far, TimerSpec::Rearmed { old_ms: 0, new_ms: 8, from: 1 }],
+            vec![TimerSpec::Rearmed { old_ms: 5, new_ms: 12, from: 2 }],
             vec![TimerSpec::AtLate],
         ];
         for timers in relations {
